@@ -9,19 +9,18 @@
    ops                                   output
    init full|sync                        = init <rc>            (sync = XMPP_CONN_FLAG_COMPRESSION_DONT_RESET)
    send H                                = q <send_queue_len>   (xmpp_send_raw: the normal send path)
-   w a1,a2,...  | w -                    = net H calls=o:a,.. acked=N q=n err=E st=c|d disc=k
-        one REAL xmpp_run_once(ctx,0) (write loop + intf->flush; select is wrapped and reports
-        nothing readable).  ai is the answer of the lower transport to its i-th write call in this
-        iteration: all | <n> (accepts min(n,len)) | again (-1, EAGAIN) | err (-1, ECONNRESET);
-        calls beyond the schedule get `all`.  H = the bytes the lower transport accepted.
-   rxz H                                 = plain H rets=r1,r2,.. net H' calls=.. acked=N q=n pend=0|1 err=E st=c|d disc=k
+   w a1,a2,...  | w -                    = io plain=H rets=.. net=H' calls=o:a,.. acked=N q=n pend=0|1 err=E st=c|d disc=k
+        one REAL xmpp_run_once(ctx,0): write loop + intf->flush, then whatever the event loop does
+        on the read side (select is wrapped: the socket is readable exactly while the lower
+        transport has unread bytes or saw EOF; nothing is ever reported writable).  ai is the answer
+        of the lower transport to its i-th write call in this op: all | <n> (accepts min(n,len)) |
+        again (-1, EAGAIN) | err (-1, ECONNRESET); calls beyond the schedule get `all`.
+        H' = the bytes the lower transport accepted, H = what was handed to parser_feed (wrapped:
+        recorded, not parsed), rets = what conn->intf.read returned (observed by a pass-through shim).
+   rxz H                                 same line
         one compressed fragment reaches the socket; the application keeps calling the REAL
-        xmpp_run_once(ctx,0) for as long as select() reports the socket readable (the wrapped
-        select says "readable" exactly while the lower transport has unread bytes or saw EOF).
-        Each such call is a whole loop iteration: send half (lower transport accepts everything),
-        then the read branch.  H = what xmpp_run_once handed to parser_feed (wrapped: recorded, not
-        parsed), rets = what conn->intf.read returned (observed by a pass-through shim), H' = bytes
-        the send halves forwarded meanwhile.
+        xmpp_run_once(ctx,0) until a call ends without having read anything (lower transport
+        accepts everything).
    eof                                   like rxz, the lower read returns 0
    pend                                  = pend 0|1             (conn->intf.pending)
    end                                   = end live=<blocks still allocated after xmpp_conn_release>
@@ -523,8 +522,11 @@ static void write_oracle(FILE *out, size_t acked, int was_connected)
                 srv_plain.n, acked);
 }
 
-/* a fragment (or EOF) has reached the socket: the application's loop around xmpp_run_once */
-static void do_read_loop(FILE *out)
+/* Runs the REAL xmpp_run_once(ctx,0): once (`until_quiet` = 0: the op `w`), or as the
+   application's loop does, again and again until a call ends without having read anything
+   (`until_quiet` = 1: a fragment or EOF has reached the socket).  The wrapped select() reports the
+   socket readable exactly while the lower transport has unread bytes or saw EOF. */
+static void do_iterations(FILE *out, int until_quiet)
 {
     int guard = 0;
     size_t acked;
@@ -536,19 +538,25 @@ static void do_read_loop(FILE *out)
     gb_reset(&lt.calls);
     lt.op_backpressure = 0;
     lt.op_hard_err = 0;
-    free(lt.sched);
-    lt.sched = NULL;
-    lt.nsched = lt.pos = 0;
-    while (conn->state == XMPP_STATE_CONNECTED && lt_readable() && guard++ < 200000) {
+    do {
+        size_t reads_before = rd_rets.n;
         zl_active = 1;
-        hselect_mode = 1; /* the socket is readable */
+        hselect_mode = lt_readable() ? 1 : 0;
         xmpp_run_once(ctx, 0);
         hselect_mode = 0;
         zl_active = 0;
-    }
+        if (rd_rets.n == reads_before)
+            break; /* nothing was read: the loop is idle until the next socket event */
+    } while (until_quiet && conn->state == XMPP_STATE_CONNECTED && guard++ < 200000);
     gb_add(&delivered, rd_got.p, rd_got.n);
     acked = submitted_total - queue_unwritten();
     write_oracle(out, acked, was_connected);
+    if (was_connected && conn->state != XMPP_STATE_CONNECTED && !lt.op_hard_err &&
+        !rd_closed_by_nonpositive && !rd_lower_eof_seen)
+        fprintf(out, "ORACLE-FAIL spurious-disconnect the-lower-transport-reported-no-hard-error conn-error=%d\n",
+                conn->error);
+    if (lt.wrong_intf)
+        fprintf(out, "ORACLE-FAIL wrong-intf\n");
     /* reference: inflate everything the client was given */
     if (exp_on && !exp_bad && rx_all.n > exp_fed) {
         int rc = feed_inflater(&exp_z, rx_all.p + exp_fed, rx_all.n - exp_fed, &exp_plain);
@@ -566,7 +574,8 @@ static void do_read_loop(FILE *out)
         if (rd_closed_by_nonpositive && conn->state != XMPP_STATE_CONNECTED)
             fprintf(out, "ORACLE-FAIL spurious-eof read-returned-nothing-on-a-healthy-stream delivered=%zu expected=%zu\n",
                     delivered.n, exp_plain.n);
-        else if (conn->state == XMPP_STATE_CONNECTED && !f_rmis && delivered.n < exp_plain.n) {
+        else if (until_quiet && conn->state == XMPP_STATE_CONNECTED && !f_rmis &&
+                 delivered.n < exp_plain.n) {
             if (conn->intf.pending(&conn->intf))
                 fprintf(out, "ORACLE-FAIL pending-ignored delivered=%zu expected=%zu socket-drained intf-pending=1\n",
                         delivered.n, exp_plain.n);
@@ -575,9 +584,9 @@ static void do_read_loop(FILE *out)
                         delivered.n, exp_plain.n);
         }
     }
-    fprintf(out, "= plain ");
+    fprintf(out, "= io plain=");
     hprint_hex(out, rd_got.p ? rd_got.p : (unsigned char *)"", rd_got.n);
-    fprintf(out, " rets=%.*s net ", (int)(rd_rets.n ? rd_rets.n : 1), rd_rets.n ? (char *)rd_rets.p : "-");
+    fprintf(out, " rets=%.*s net=", (int)(rd_rets.n ? rd_rets.n : 1), rd_rets.n ? (char *)rd_rets.p : "-");
     hprint_hex(out, lt.op_net.p ? lt.op_net.p : (unsigned char *)"", lt.op_net.n);
     fprintf(out, " calls=%.*s acked=%zu q=%d pend=%d", (int)(lt.calls.n ? lt.calls.n : 1),
             lt.calls.n ? (char *)lt.calls.p : "-", acked, conn->send_queue_len,
@@ -623,31 +632,11 @@ int eng_zl(FILE *in, FILE *out)
             fprintf(out, "= q %d\n", conn->send_queue_len);
             hbuf_free(&b);
         } else if (n == 2 && strcmp(tok[0], "w") == 0) {
-            size_t acked;
-            int was_connected = conn->state == XMPP_STATE_CONNECTED;
             if (parse_sched(tok[1]) < 0) {
                 fprintf(out, "= bad-op\n");
                 continue;
             }
-            gb_reset(&lt.op_net);
-            gb_reset(&lt.calls);
-            lt.op_backpressure = 0;
-            lt.op_hard_err = 0;
-            zl_active = 1;
-            xmpp_run_once(ctx, 0);
-            zl_active = 0;
-            acked = submitted_total - queue_unwritten();
-            write_oracle(out, acked, was_connected);
-            if (was_connected && conn->state != XMPP_STATE_CONNECTED && !lt.op_hard_err)
-                fprintf(out, "ORACLE-FAIL spurious-disconnect the-lower-transport-reported-no-hard-error conn-error=%d\n",
-                        conn->error);
-            if (lt.wrong_intf)
-                fprintf(out, "ORACLE-FAIL wrong-intf\n");
-            fprintf(out, "= net ");
-            hprint_hex(out, lt.op_net.p ? lt.op_net.p : (unsigned char *)"", lt.op_net.n);
-            fprintf(out, " calls=%.*s acked=%zu q=%d", (int)(lt.calls.n ? lt.calls.n : 1),
-                    lt.calls.n ? (char *)lt.calls.p : "-", acked, conn->send_queue_len);
-            print_tail(out);
+            do_iterations(out, 0);
         } else if (n == 2 && strcmp(tok[0], "rxz") == 0) {
             hbuf b;
             if (hparse(tok[1], &b) < 0 || !b.p) {
@@ -657,10 +646,12 @@ int eng_zl(FILE *in, FILE *out)
             gb_add(&lt.inq, b.p, b.n);
             gb_add(&rx_all, b.p, b.n);
             hbuf_free(&b);
-            do_read_loop(out);
+            parse_sched((char *)"-");
+            do_iterations(out, 1);
         } else if (n == 1 && strcmp(tok[0], "eof") == 0) {
             lt.in_eof = 1;
-            do_read_loop(out);
+            parse_sched((char *)"-");
+            do_iterations(out, 1);
         } else if (n == 1 && strcmp(tok[0], "pend") == 0) {
             fprintf(out, "= pend %d\n", conn->intf.pending(&conn->intf) ? 1 : 0);
         } else if (n == 1 && strcmp(tok[0], "end") == 0) {
